@@ -125,24 +125,7 @@ def run_case(case, ob, tier):
 
 
 def prove_all(ob, goals, assumptions, v, vacuity=True):
-    """discharge a batch: one conjunction first, individual queries only to localise a failure"""
-    if not goals:
-        return
-    conj = z3.And(*[g for _, g, _ in goals])
-    n0 = ob.n
-    r = ob.prove('batch(%d):%s..' % (len(goals), goals[0][0]), conj, assumptions, v, site=goals[0][2], vacuity=vacuity)
-    if r == 'unsat':
-        ob.n += len(goals) - 1
-        ob.unsat += len(goals) - 1
-        return
-    # localise
-    if r == 'sat':
-        ob.sat.pop()
-    else:
-        ob.unknown.pop()
-    ob.n = n0
-    for name, g, site in goals:
-        ob.prove(name, g, assumptions, v, site=site)
+    ob.prove_all(goals, assumptions, v, vacuity)
 
 
 def _site(case):
